@@ -93,5 +93,9 @@ RechunkRight == /\ Flatten(out) \o buf = [q \in 1..pos |-> q]                   
 LinesRight == /\ Flatten(lout) \o lbuf = [q \in 1..pos |-> q]
               /\ \A i \in 1..(Len(lout) - (IF done THEN 1 ELSE 0)) : Len(lout[i]) = NChunk
               /\ (done /\ lout # <<>>) => Len(lout[Len(lout)]) <= NChunk
+\* the fold is additive: the data repeated m times has m times the counts (a small dataset stands for one of millions of entries,
+\* see the big-count part of the C11 driver)
+RepData(m) == [q \in 1..(m * Len(data)) |-> data[((q - 1) % Len(data)) + 1]]
+BinsOfRepeat == \A m \in {2, 3} : data # <<>> => BinCount(RepData(m)) = [b \in DOMAIN BinCount(data) |-> m * BinCount(data)[b]]
 Final == done => /\ sum = SumV(data) /\ cnt = Len(data) /\ bins = BinCount(data) /\ closed = Groups(data)
 ==============================================================================
